@@ -80,6 +80,22 @@ theorem final_before_first_refused (env : ScramEnv) (msg : Bytes) (att : Nat) :
   simp only [scramMech, if_true, he, hr, hp, Bool.false_eq_true, if_false]
   simp [scramServerFinal]
 
+/-- **A new exchange starts from nothing.** Whatever state an earlier exchange on the same Auth value has
+    left behind (a completed exchange leaves `salted`, the auth message, the nonce): after `Start`, a
+    server-final message - in particular the replayed ServerSignature of that earlier exchange - is
+    refused, for every state and every message. (The repaired defect `c00da92`: `Start` passed the state on.) -/
+theorem replay_on_a_new_exchange_refused (env : ScramEnv) (st : ScramSt) (si : ServerInfo) (msg : Bytes) :
+    ((scramMech env).next ((scramMech env).start st si).1 (sb "v=" ++ msg) true).2 = .error errScram := by
+  have h : ((scramMech env).start st si).1 = { attempt := st.attempt } := rfl
+  rw [h]
+  exact final_before_first_refused env msg st.attempt
+
+/-- ... and the other mechanisms: `Start` does not look at the state at all. -/
+theorem start_forgets_plain (identity user pass host : Bytes) (allow : Bool) (st : Unit) (si : ServerInfo) :
+    (plainMech identity user pass host allow).start st si = (plainMech identity user pass host allow).start () si := rfl
+theorem start_forgets_login (user pass host : Bytes) (allow : Bool) (st : Nat) (si : ServerInfo) :
+    (loginMech user pass host allow).start st si = (loginMech user pass host allow).start 0 si := rfl
+
 /-- A server-first message whose nonce does not extend the client's nonce is refused. -/
 theorem foreign_nonce_refused (env : ScramEnv) (st : ScramSt) (p0 p1 p2 : Bytes) (rest : List Bytes) (fromServer : Bytes)
     (hs : splitOnByte 44 fromServer = p0 :: p1 :: p2 :: rest)
